@@ -110,6 +110,12 @@ Definition bin_rows (size_ns : Z) (rows : list row) : list row := map to_row (bi
 
 Definition csum (rows : list row) : counters := fold_right (fun r acc => cadd (r_cnt r) acc) czero rows.
 
+(* specification vocabulary: the input rows that belong to the output row with key k, and counters
+   read as uint64 values *)
+Definition sel (size_ns : Z) (k : key) (rows : list row) : list row :=
+  filter (fun r => key_eqb (key_of (bin_row size_ns r)) k) rows.
+Definition cnorm (c : counters) : counters := cadd c czero.
+
 (* ------------------------------------------------------------------ Statement.PostProcess *)
 (* returns (rows before truncation, Hits.Total, Hits.Displayed); the caller cuts rows[:displayed] *)
 Definition post_process (sel_ts : bool) (size_ns numres hits_total : Z) (rows : list row)
